@@ -612,7 +612,7 @@ def gen_generate(rng, sp, origin):
         b" " + kind.encode() + b" " + rhs + b"\n"
     exp = []
     for i in range(start, stop + 1, step):
-        owner = lhs.replace(lm, fmt(i, lmeta))
+        owner = lhs.replace(lm, fmt(i, lmeta)) or b"@"  # an empty owner text is the current origin
         rd = rhs.replace(rm, fmt(i, rmeta))
         exp.append(owner + (b" %d" % ttl if ttl is not None else b"") + (b" " + cls if cls else b"") + b" " + kind.encode() + b" " + rd + b"\n")
     return line, exp
